@@ -70,29 +70,74 @@ package client
 //   every table entry is a request.
 //@ spec poolInv(h *inFlightRequestsHandler) bool = h.inFlightLock != nil && !isnil(h.inFlight) && h.ctx != nil && 0 <= h.maxInFlight && h.maxInFlight <= 32767 && (h.closed == 0 || h.closed == 1) && (h.closed == 0 ==> h.streamIds != nil && !chanclosed(h.streamIds) && chancap(h.streamIds) == h.maxInFlight && (forall id int16 :: 0 <= chancount(h.streamIds, id) && chancount(h.streamIds, id) <= 1 && (has(h.inFlight, id) && h.inFlight[id].managedStreamId ==> 1 <= id && int(id) <= h.maxInFlight) && (chanhas(h.streamIds, id) ==> 1 <= id && int(id) <= h.maxInFlight && !(has(h.inFlight, id) && h.inFlight[id].managedStreamId)))) && (forall id int16 :: has(h.inFlight, id) ==> h.inFlight[id] != nil)
 
-// what the handler relies on from the per-request object (goroutines, timers and the frame channel of a request are
-// outside the sequential model: ASSUMED)
-//@ func newInFlightRequest
-//@   prop C09
-//@   nilable ctx
-//@   assumes-assigns nothing
-//@   assumes made: result != nil && fresh(result) && result.streamId == streamId && result.managedStreamId == managedStreamId
-//@ func (*inFlightRequest).startTimeout
-//@   prop C09
-//@   assumes-assigns r.timeoutCtx, r.timeoutCancel
-//@ func (*inFlightRequest).onFrameReceived
-//@   prop C09
-//@   assumes-assigns r._incoming, r.err, r.done, r.timeoutCtx, r.timeoutCancel
-//@ func (*inFlightRequest).close
-//@   prop C09
-//@   nilable err
-//@   assumes-assigns r._incoming, r.err, r.done
+// ---- C10: the in-flight table pairs every id with its own request ---------------------------------------------------
+// tableInv: every entry is a live object registered under its own stream id (hence two ids never share a request
+// object) and satisfies the request invariant; chansDistinct: two entries never share a channel. Assumed and re-established by every handler operation (an
+// induction over sequences of operations, like poolInv).
+//@ spec tableInv(h *inFlightRequestsHandler) bool = forall id int16 :: has(h.inFlight, id) ==> h.inFlight[id] != nil && allocated(h.inFlight[id]) && allocated(h.inFlight[id].incoming) && h.inFlight[id].streamId == id && reqInv(h.inFlight[id])
+//@ spec chansDistinct(h *inFlightRequestsHandler) bool = forall a int16 :: forall b int16 :: has(h.inFlight, a) && has(h.inFlight, b) && a != b ==> h.inFlight[a].incoming != h.inFlight[b].incoming
 
-// whether a frame completes its response is a function of the frame (continuous paging: the last page); its body is
-// not re-examined here
+// ---- C10 / C09: the per-request object (sequential mechanism) -----------------------------------------------------
+// A request owns one buffered channel of frames (incoming, exposed to the caller; _incoming is the same channel until
+// the request is closed, then nil). govc models the channel sequentially as a bounded multiset of frame references
+// (chancount(ch, f) = how many times frame f is queued). reqInv is the request's representation invariant:
+//   open request:   _incoming == incoming, channel open;      closed request:  _incoming == nil, channel closed, done.
+//@ spec reqInv(r *inFlightRequest) bool = r.lock != nil && r.ctx != nil && r.cancel != nil && r.incoming != nil && (r.done ==> r._incoming == nil && chanclosed(r.incoming)) && (!r.done ==> r._incoming == r.incoming && !chanclosed(r.incoming))
+
+// a new request is a fresh object with a fresh, empty, open channel, carrying the given id and flag
+//@ func newInFlightRequest
+//@   prop C09, C10
+//@   nilable ctx
+//@   requires pending: 0 <= maxPending && maxPending <= 2147483647
+//@   assigns nothing
+//@   ensures made: result != nil && fresh(result) && result.streamId == streamId && result.managedStreamId == managedStreamId
+//@   ensures open: reqInv(result) && !result.done && fresh(result.incoming) && allocated(result.incoming) && chanlen(result.incoming) == 0
+//@   ensures empty: forall g *frame.Frame :: chancount(result.incoming, g) == 0
+
+// timers: a goroutine per armed timeout (ignored by the sequential model); only the two timer fields change
+//@ func (*inFlightRequest).startTimeout
+//@   prop C09, C10
+//@   requires ctx: r.ctx != nil
+//@   assigns r.timeoutCtx, r.timeoutCancel
+
+// closing a request: done, channel closed (frames already queued stay readable), the first error wins
+//@ func (*inFlightRequest).close
+//@   prop C10
+//@   nilable err
+//@   requires inv: reqInv(r)
+//@   assigns r._incoming, r.err, r.done, chanstate(r.incoming)
+//@   ensures inv: reqInv(r)
+//@   ensures done: r.done && chanclosed(r.incoming)
+//@   ensures first: !old(r.done) ==> r.err == err
+//@   ensures keeps: old(r.done) ==> r.err == old(r.err)
+//@   ensures queue: forall g *frame.Frame :: chancount(r.incoming, g) == old(chancount(r.incoming, g))
+
+// delivery: the frame is queued exactly once on this request's own channel, or refused with an error and not queued;
+// no other frame's count changes; the last frame of a response completes the request (done, channel closed, no
+// error), any other frame leaves it open. The frame (assigns) says nothing but this request and its channel changes.
+//@ func (*inFlightRequest).onFrameReceived
+//@   prop C10, C09
+//@   requires inv: reqInv(r)
+//@   requires frame: wellFormedResponse(f)
+//@   assigns r._incoming, r.err, r.done, r.timeoutCtx, r.timeoutCancel, chanstate(r.incoming)
+//@   ensures inv: reqInv(r)
+//@   ensures delivered: result == nil ==> chancount(r.incoming, f) == old(chancount(r.incoming, f)) + 1
+//@   ensures refused: result != nil ==> chancount(r.incoming, f) == old(chancount(r.incoming, f))
+//@   ensures onlythat: forall g *frame.Frame :: g != f ==> chancount(r.incoming, g) == old(chancount(r.incoming, g))
+//@   ensures wasopen: result == nil ==> !old(r.done)
+//@   ensures completes: result == nil && isLastFrame(f) ==> r.done && chanclosed(r.incoming) && r.err == nil
+//@   ensures continues: result == nil && !isLastFrame(f) ==> !r.done && !chanclosed(r.incoming)
+
+// whether a frame completes its response: every frame does, except a page of a continuous-paging RESULT Rows that is
+// not flagged as the last page (DSE protocol: continuous paging; the flag is set exactly when a page number is present).
+// wellFormedResponse: what every frame produced by the frame decoder satisfies - header, body and message present, a
+// RESULT opcode carries one of the five RESULT messages, rows carry their metadata.
+//@ spec wellFormedResponse(f *frame.Frame) bool = f.Header != nil && f.Body != nil && f.Body.Message != nil && (f.Header.OpCode == primitive.OpCodeResult ==> (typeis(f.Body.Message, *message.VoidResult) || typeis(f.Body.Message, *message.RowsResult) || typeis(f.Body.Message, *message.SetKeyspaceResult) || typeis(f.Body.Message, *message.PreparedResult) || typeis(f.Body.Message, *message.SchemaChangeResult)) && (typeis(f.Body.Message, *message.RowsResult) ==> !isnil(unbox(f.Body.Message, *message.RowsResult)) && unbox(f.Body.Message, *message.RowsResult).Metadata != nil && (forall k int :: 0 <= k && k < len(unbox(f.Body.Message, *message.RowsResult).Metadata.Columns) ==> unbox(f.Body.Message, *message.RowsResult).Metadata.Columns[k] != nil)))
 //@ func isLastFrame
-//@   prop C09
+//@   prop C09, C10
 //@   pure
+//@   requires frame: wellFormedResponse(f)
+//@   ensures paging: result == !(f.Header.OpCode == primitive.OpCodeResult && typeis(f.Body.Message, *message.RowsResult) && unbox(f.Body.Message, *message.RowsResult).Metadata.ContinuousPageNumber > 0 && !unbox(f.Body.Message, *message.RowsResult).Metadata.LastContinuousPage)
 
 // the constructor fills the pool with exactly 1..N
 //@ func newInFlightRequestsHandler
@@ -106,7 +151,7 @@ package client
 // sending: an accepted request gets an id in 1..N (automatic assignment) or keeps its own, in either case one that no
 // unanswered request uses; exhaustion and duplicates are refused; a refused request changes neither table nor pool.
 //@ func (*inFlightRequestsHandler).onOutgoingFrameEnqueued
-//@   prop C09
+//@   prop C09, C10
 //@   requires inv: poolInv(h)
 //@   requires frame: f.Header != nil
 //@   let sid0 = f.Header.StreamId
@@ -120,13 +165,22 @@ package client
 //@   ensures exhausted: sid0 == 0 && closed0 == 0 && old(chanlen(h.streamIds)) == 0 ==> result1 != nil
 //@   ensures duplicate: sid0 != 0 && old(has(h.inFlight, sid0)) ==> result1 != nil
 //@   ensures refused: forall id int16 :: result1 != nil && closed0 == 0 ==> has(h.inFlight, id) == old(has(h.inFlight, id)) && chancount(h.streamIds, id) == old(chancount(h.streamIds, id))
+// C10: the request handed back to the sender is the one registered under the frame's id; it is a new request with
+// its own empty channel; no other entry changes
+//@   requires c10_table: tableInv(h)
+//@   requires c10_chans: chansDistinct(h)
+//@   requires c10_pending: 0 <= h.maxPending && h.maxPending <= 2147483647
+//@   ensures c10_table: tableInv(h)
+//@   ensures c10_chans: chansDistinct(h)
+//@   ensures c10_registered: result1 == nil ==> typeis(result0, *inFlightRequest) && unbox(result0, *inFlightRequest) == h.inFlight[f.Header.StreamId] && unbox(result0, *inFlightRequest).streamId == f.Header.StreamId && fresh(unbox(result0, *inFlightRequest)) && !unbox(result0, *inFlightRequest).done
+//@   ensures c10_others: forall id int16 :: id != f.Header.StreamId || result1 != nil ==> h.inFlight[id] == old(h.inFlight[id])
 
 // receiving: the final frame of a response frees the table entry and, for an automatically assigned id, returns the id
 // to the pool; other frames and frames for unknown ids leave table and pool alone.
 //@ func (*inFlightRequestsHandler).onIncomingFrameReceived
-//@   prop C09
+//@   prop C09, C10
 //@   requires inv: poolInv(h)
-//@   requires frame: f.Header != nil && f.Body != nil && f.Body.Message != nil
+//@   requires frame: wellFormedResponse(f)
 //@   let sid = f.Header.StreamId
 //@   let closed0 = h.closed
 //@   ensures inv: poolInv(h)
@@ -136,6 +190,24 @@ package client
 //@   ensures kept: closed0 == 0 && old(has(h.inFlight, sid)) && !isLastFrame(f) ==> has(h.inFlight, sid) && chancount(h.streamIds, sid) == old(chancount(h.streamIds, sid))
 //@   ensures others: forall id int16 :: closed0 == 0 && id != sid ==> has(h.inFlight, id) == old(has(h.inFlight, id)) && chancount(h.streamIds, id) == old(chancount(h.streamIds, id))
 //@   ensures unknownkeeps: closed0 == 0 && !old(has(h.inFlight, sid)) ==> chancount(h.streamIds, sid) == old(chancount(h.streamIds, sid)) && !has(h.inFlight, sid)
+// C10: the frame is queued exactly once, on the channel of the request registered under the frame's stream id, and
+// nowhere else (assigns: nothing but the table, the id pool, that request and that request's channel may change);
+// a frame with an unknown id is refused and changes nothing; the last frame completes the request, others leave it
+// registered.
+//@   requires c10_table: tableInv(h)
+//@   requires c10_chans: chansDistinct(h)
+//@   let target = h.inFlight[sid]
+//@   assigns contents(h.inFlight), chanstate(h.streamIds), target._incoming, target.err, target.done, target.timeoutCtx, target.timeoutCancel, chanstate(target.incoming, has(h.inFlight, sid))
+//@   ensures c10_table: tableInv(h)
+//@   ensures c10_chans: chansDistinct(h)
+//@   ensures c10_sameid: old(has(h.inFlight, sid)) ==> target.streamId == sid
+//@   ensures c10_delivered: closed0 == 0 && old(has(h.inFlight, sid)) && result == nil ==> chancount(target.incoming, f) == old(chancount(target.incoming, f)) + 1
+//@   ensures c10_once: forall g *frame.Frame :: old(has(h.inFlight, sid)) && g != f ==> chancount(target.incoming, g) == old(chancount(target.incoming, g))
+//@   ensures c10_refused: old(has(h.inFlight, sid)) && result != nil ==> chancount(target.incoming, f) == old(chancount(target.incoming, f))
+//@   ensures c10_unknown: !old(has(h.inFlight, sid)) ==> result != nil
+//@   ensures c10_completes: closed0 == 0 && old(has(h.inFlight, sid)) && result == nil && isLastFrame(f) ==> target.done && chanclosed(target.incoming) && target.err == nil
+//@   ensures c10_continues: closed0 == 0 && old(has(h.inFlight, sid)) && result == nil && !isLastFrame(f) ==> !target.done && has(h.inFlight, sid) && h.inFlight[sid] == target
+//@   ensures c10_others: forall id int16 :: id != sid ==> h.inFlight[id] == old(h.inFlight[id])
 
 // Reassembly of envelopes split over several segments: after a complete envelope the accumulator is empty again (the
 // first segment of the next envelope is recognised by targetLength == 0 and starts from no data).
@@ -143,3 +215,27 @@ package client
 //@   prop C15
 //@   assigns a.targetLength, a.accumulatedData
 //@   ensures empty: a.targetLength == 0 && len(a.accumulatedData) == 0
+
+// ---- C10: routing by opcode --------------------------------------------------------------------------------------
+// Server-pushed events go to the event channel (and the registered handlers) and never to a request: table, requests
+// and their channels are untouched. Every other frame goes to the in-flight handler and never to the event channel.
+// Event handlers are user callbacks: that they leave the connection's table and channels alone is ASSUMED.
+//@ func (*CqlClientConnection).processIncomingFrame
+//@   prop C10
+//@   assumes-noeffect client.EventHandler
+//@   requires parts: wellFormedResponse(incoming) && c.inFlightHandler != nil && c.events != nil && !chanclosed(c.events)
+//@   requires handlers: forall k int :: 0 <= k && k < len(c.handlers) ==> c.handlers[k] != nil
+//@   requires error: incoming.Header.OpCode == primitive.OpCodeError ==> implements(incoming.Body.Message, message.Error)
+//@   requires inv: poolInv(c.inFlightHandler) && tableInv(c.inFlightHandler) && chansDistinct(c.inFlightHandler)
+// the event channel is the connection's own (made by the constructor), no request's
+//@   requires eventsown: forall id int16 :: has(c.inFlightHandler.inFlight, id) ==> c.inFlightHandler.inFlight[id].incoming != c.events
+//@   let h = c.inFlightHandler
+//@   let target = c.inFlightHandler.inFlight[incoming.Header.StreamId]
+//@   ensures inv: poolInv(h) && tableInv(h) && chansDistinct(h)
+//@   ensures event: incoming.Header.OpCode == primitive.OpCodeEvent ==> chancount(c.events, incoming) == old(chancount(c.events, incoming)) + ite(old(chanlen(c.events)) < chancap(c.events), int(1), int(0))
+//@   ensures eventonly: forall g *frame.Frame :: g != incoming ==> chancount(c.events, g) == old(chancount(c.events, g))
+//@   ensures eventtable: forall id int16 :: incoming.Header.OpCode == primitive.OpCodeEvent ==> has(h.inFlight, id) == old(has(h.inFlight, id)) && h.inFlight[id] == old(h.inFlight[id]) && chancount(h.streamIds, id) == old(chancount(h.streamIds, id))
+//@   ensures eventnotrequest: forall id int16 :: incoming.Header.OpCode == primitive.OpCodeEvent && old(has(h.inFlight, id)) ==> chancount(h.inFlight[id].incoming, incoming) == old(chancount(h.inFlight[id].incoming, incoming)) && h.inFlight[id].done == old(h.inFlight[id].done)
+//@   ensures responsenotevent: incoming.Header.OpCode != primitive.OpCodeEvent ==> chancount(c.events, incoming) == old(chancount(c.events, incoming)) && chanlen(c.events) == old(chanlen(c.events))
+//@   ensures responseonce: forall g *frame.Frame :: incoming.Header.OpCode != primitive.OpCodeEvent && old(has(h.inFlight, incoming.Header.StreamId)) && g != incoming ==> chancount(target.incoming, g) == old(chancount(target.incoming, g))
+//@   ensures responseothers: forall id int16 :: incoming.Header.OpCode != primitive.OpCodeEvent && id != incoming.Header.StreamId ==> h.inFlight[id] == old(h.inFlight[id]) && has(h.inFlight, id) == old(has(h.inFlight, id))
